@@ -158,6 +158,28 @@ func Check(c Case) (v vcase.Verdict) {
 		if strings.ContainsAny(wv, "\\\"") {
 			continue
 		}
+		// a fixed value list on the key keeps exactly the results whose extracted value is listed
+		for _, probe := range []struct {
+			val  string
+			want bool
+		}{{wv, true}, {wv + "x", false}} {
+			flt, err := benchproc.NewFilter("*")
+			if err != nil {
+				v.Failf("NewFilter(*): %v", err)
+				return
+			}
+			var fp benchproc.ProjectionParser
+			q := strconv.Quote(k) + "@(" + strconv.Quote(probe.val) + " " + strconv.Quote("other\x00value") + ")"
+			if _, err := fp.Parse(q, flt); err != nil {
+				v.Failf("Parse(%s): %v", q, err)
+				return
+			}
+			m, _ := flt.Match(res)
+			if m.All() != probe.want || m.Any() != probe.want {
+				v.Failf("name %q config %v: fixed list %s keeps the result = %v, reference extraction of %s is %q", name, cfgRef, q, m.All(), k, wv)
+				return
+			}
+		}
 		for _, probe := range []struct {
 			val  string
 			want bool
